@@ -1832,7 +1832,13 @@ impl<'b> OwnedContext<'b> {
         let mut context = self.borrow_mut();
         // Return when the starting frame is finished
         loop {
-            if context.thread.interrupted() {
+            // Acknowledge the request, otherwise every later evaluation on this thread would be
+            // interrupted as well
+            if context
+                .thread
+                .interrupt
+                .swap(false, atomic::Ordering::Relaxed)
+            {
                 return Err(Error::Interrupted).into();
             }
             trace!("STACK\n{:?}", context.stack.stack().get_frames());
